@@ -297,7 +297,9 @@ def check_alignment(ctx: Ctx, sim, coords, labels, other, tag, expect_zero: bool
     other_in = other.copy()
     out = sim.optimal_alignment(coords, other)
     dist, c1, c2, perm = out
-    rep = {"system": tag, "labels": labels, "coords1": coords.position.tolist(), "coords2": other_in.tolist()}
+    rep = {"system": tag, "labels": labels, "coords1": coords.position.tolist(), "coords2": other_in.tolist(),
+           "crit": float(sim.distance_criterion), "weighted": bool(getattr(sim, "weighted", False)),
+           "inversion": bool(getattr(sim, "allow_inversion", False)), "expect_zero": bool(expect_zero)}
     if not (isinstance(c1, np.ndarray) and isinstance(c2, np.ndarray)):
         ctx.fail("returns-non-array", f"optimal_alignment returned {type(c1).__name__}/{type(c2).__name__} "
                  f"instead of plain coordinate arrays ({tag})", rep)
@@ -446,6 +448,10 @@ def predicates(ctx: Ctx) -> None:
             n = rng.randrange(3, 14)
             two = rng.random() < 0.5
             labels = [rng.choice(["Au", "Ag"]) for _ in range(n)] if two else ["C"] * n
+            if rng.random() < 0.5:
+                # species symbols as they come out of a file / json / a numpy string array: equal strings, but every
+                # atom carries a string object of its own
+                labels = [str(l.encode("ascii"), "ascii") for l in labels]
             pts = cluster(rng, n)
             weighted, inversion = rng.random() < 0.3, rng.random() < 0.3
             sim = make_sim(rng.choice([0.1, 1e-4]), weighted, inversion)
@@ -476,11 +482,34 @@ def predicates(ctx: Ctx) -> None:
             ctx.stats.case({"pred": "different-structures-inversion", "n": n}, True)
             check_alignment(ctx, sim, AtomicCoordinates(labels, cluster(rng, n).flatten().copy()), labels,
                             cluster(rng, n).flatten(), f"different-{n}", False)
+        # mirror images in weighted mode: two species in a non-centrosymmetric arrangement (centre of mass differs
+        # from the centroid), inversion allowed, and a copy that matches only after inversion
+        for _ in range(ctx.scale(8, 40) * deep):
+            n = rng.randrange(5, 12)
+            labels = [rng.choice(["Au", "Ag"]) for _ in range(n)]
+            if len(set(labels)) < 2:
+                labels[0], labels[1] = "Au", "Ag"
+            pts = cluster(rng, n)
+            perm = list(range(n))
+            for sp in set(labels):
+                idx = [i for i in range(n) if labels[i] == sp]
+                sh = idx[:]; rng.shuffle(sh)
+                for a, b in zip(idx, sh):
+                    perm[a] = b
+            other = (-pts[perm] @ random_rotation(rng).T + np.array([rng.uniform(-2, 2) for _ in range(3)])).flatten()
+            for weighted in (True, False):
+                sim = make_sim(0.1, weighted, True)
+                coords = AtomicCoordinates(labels, pts.flatten().copy())
+                ctx.stats.case({"pred": "mirror-image", "n": n, "weighted": weighted}, True)
+                check_alignment(ctx, sim, coords, labels, other.copy(), f"mirror-{n}-{'weighted' if weighted else 'plain'}",
+                                True, coords.atom_weights.astype(float) if weighted else None)
         # larger generic clusters: here the 150 random restarts cannot rescue a broken identity test, so
         # the deterministic path (furthest atoms + Kabsch + Hungarian) must itself recognise the copy
         for _ in range(ctx.scale(60, 300) * deep):
             n = rng.choice([18, 24, 30])
             labels = [rng.choice(["Au", "Ag"]) for _ in range(n)] if rng.random() < 0.5 else (["C", "C", "O"] * 10)[:n]
+            if rng.random() < 0.5:
+                labels = [str(l.encode("ascii"), "ascii") for l in labels]
             pts = ball(rng, n) if rng.random() < 0.8 else cluster(rng, n, spread=3.0)
             perm = list(range(n))
             for sp in set(labels):
@@ -567,9 +596,12 @@ def replay(ctx: Ctx, data: dict) -> bool:
     elif not labels or ":shared-object" in str(data.get("system", "")):
         predicates(ctx)
     else:
+        labels = [str(l.encode("ascii"), "ascii") for l in labels]      # as from a file: one string object per atom
         coords = AtomicCoordinates(labels, np.array(data["coords1"], float))
-        check_alignment(ctx, make_sim(0.1), coords, labels, np.array(data["coords2"], float), "replay",
-                        data.get("key") == "rigid-copy-not-recognised")
+        sim = make_sim(data.get("crit", 0.1), data.get("weighted", False), data.get("inversion", False))
+        w = coords.atom_weights.astype(float) if data.get("weighted") else None
+        check_alignment(ctx, sim, coords, labels, np.array(data["coords2"], float), "replay",
+                        bool(data.get("expect_zero", data.get("key") == "rigid-copy-not-recognised")), w)
     for f in ctx.failures:
         print(f"  {f.key}: {f.what}")
     return not ctx.failures
